@@ -1107,12 +1107,22 @@ def exact_select(
     if not afs:
         return None
 
-    pick = min if is_min else max
     joined = reduce(lambda a, b: a | b, afs)
+    # An operand that can be the infinity on the losing side drops out of the
+    # selection and leaves the other operand unclamped: `max(x, -inf)` is `x`,
+    # however far below the other operand's finite bound.
+    if is_min:
+        tight = [af.pos_bound for af in afs if not af.has_pos_inf]
+        pos_bound = min(tight) if tight else joined.pos_bound
+        neg_bound = min(af.neg_bound for af in afs)
+    else:
+        tight = [af.neg_bound for af in afs if not af.has_neg_inf]
+        neg_bound = max(tight) if tight else joined.neg_bound
+        pos_bound = max(af.pos_bound for af in afs)
     return AbstractFormat(
         joined.prec, joined.exp,
-        pick(af.pos_bound for af in afs),
-        neg_bound=pick(af.neg_bound for af in afs),
+        pos_bound,
+        neg_bound=neg_bound,
         has_pos_inf=joined.has_pos_inf,
         has_neg_inf=joined.has_neg_inf,
         has_nan=joined.has_nan,
